@@ -3,7 +3,7 @@ import json
 
 import wcag_ref
 from common import proof_status
-from opt_common import gen_caf_cases, gen_pairs, correspond_caf, pool, thresholds, w_api
+from opt_common import gen_caf_cases, gen_pairs, correspond_caf, isoluminant_pair, order_disagree_pair, pool, thresholds, w_api
 from spellings import OPAQUE_KINDS, TRANSLUCENT_KINDS, spell
 
 MATCHERS = {}
@@ -34,6 +34,12 @@ def check(run):
                 "spellings; non-trivial = the pair does not already meet the minimum")
     with pool() as p:
         cases, kinds = gen_caf_cases(run.rng, n_caf)
+        # unfixable pairs of similar luminance and different hue, strict mode: the search first moves
+        # *towards* the background's luminance when OKLCH lightness and WCAG luminance disagree
+        for i in range(300 if q else 6000):
+            t, b = isoluminant_pair(run.rng) if i % 3 else order_disagree_pair(run.rng)
+            cases.append((t, b, run.rng.randrange(2), run.rng.choice([0, 0, 0, 1, 2]), run.rng.randrange(2)))
+            kinds.append("isolum")
         impl = correspond_caf(run, cases, p)
         for c, res in zip(cases, impl):
             t, b, large, mode, very = c
